@@ -95,14 +95,20 @@ RoutingFragment(f) == f # <<>> /\ (f[1] = 47 \/ f[1] = 33) /\ f \notin {<<33, 47
 
 \* ------------------------------------------------------------------ triggers of recorded findings (predicates over the input)
 \* a redirect-like query item whose key is written with an escape, or which has a control character inside
-\* its key or value ('ur%6C=', 'ur<U+0085>l=', 'url=http://tar%<DEL>67et.com')
+\* its key or value, or which follows an item separator written '&amp;' ('ur%6C=', 'ur<U+0085>l=',
+\* 'url=http://tar%<DEL>67et.com', 'x=1&amp;url=...'): infer_redirection reads the raw string
 RespelledRedirectKey(x) ==
   LET s == IF HasProtocol(Strip(x)) THEN Strip(x) ELSE HTTP \o <<58, 47, 47>> \o Strip(x)
       items == RawQueryItems(Split(s).query)
   IN \E i \in 1..Len(items) :
-       LET k == items[i][1] val == items[i][2] IN
-       /\ (Has(k, 37) \/ (\E j \in 1..Len(k) : IsControl(k[j])) \/ (\E j \in 1..Len(val) : IsControl(val[j])))
-       /\ InSeq(Lower(Decode(DropControls(k))), ND.redirect_keys)
+       LET k == items[i][1] val == items[i][2]
+           \* the item separator written '&amp;' / '&amp%3B' leaves 'amp;' / 'amp%3B' glued to the key
+           k2 == IF StartsWith(Lower(k), <<97, 109, 112, 59>>) THEN From(k, 5)
+                 ELSE IF StartsWith(Lower(k), <<97, 109, 112, 37, 51, 98>>) THEN From(k, 7) ELSE k
+       IN
+       \/ /\ (Has(k, 37) \/ (\E j \in 1..Len(k) : IsControl(k[j])) \/ (\E j \in 1..Len(val) : IsControl(val[j])))
+          /\ InSeq(Lower(Decode(DropControls(k))), ND.redirect_keys)
+       \/ (k2 # k /\ InSeq(Lower(Decode(DropControls(k2))), ND.redirect_keys))
 \* a youtube.com / facebook.com url whose path ends with a slash
 PlatformTrailingSlash(x) ==
   LET s == UpperEscapes(Clean(x))
